@@ -5,6 +5,7 @@ mod c04;
 mod c08;
 mod c10;
 mod c11;
+mod c15;
 mod dump;
 mod exec;
 mod pgen;
@@ -68,6 +69,7 @@ fn main() {
         "c08" => c08::run(&a),
         "c10" => c10::run(&a),
         "c11" => c11::run(&a),
+        "c15" => c15::run(&a),
         "exec" => exec::run(&a),
         "battery" => battery::run(&a),
         other => {
